@@ -28,6 +28,13 @@ def templates(tier, seed):
                 continue  # with one row the key column only holds 'x': asking for group 'y' is a usage error by design
             ts.append(Template(f"groupby/groups={groups}/N={N}", t_opt, ("groupby", N, dict(groups=groups))))
         ts.append(Template(f"wide_ignore_na/N={N}", t_opt, ("wide_ignore_na", N, {})))
+    if tier != "quick":  # five rows for the option pairs whose verdict depends on how many rows fail (truncation, null masking)
+        for pred in ("gt", "between"):
+            for ina in (True, False):
+                ts.append(Template(f"element_wise/{pred}/ina={int(ina)}/N=5", t_opt, ("element_wise", 5, dict(pred=pred, ina=ina))))
+            ts.append(Template(f"n_failure_cases/{pred}/N=5", t_opt, ("n_failure_cases", 5, dict(pred=pred))))
+            ts.append(Template(f"ignore_na_field/{pred}/N=5", t_opt, ("ignore_na_field", 5, dict(pred=pred))))
+        ts.append(Template("n_failure_cases_frame/N=5", t_opt, ("n_failure_cases_frame", 5, {})))
     import tmpl_pl
 
     ts += [Template(tid, tmpl.pick(fn, LABELS), args) for tid, fn, args in tmpl_pl.option_cases(tier)]
